@@ -11,7 +11,7 @@ from vlib import Rng
 BOUNDARY = ["0", "1", "len-1", "len", "len+1", "2^31", "2^32-1"]
 SAMPLES = ["test.dmp", "linux-mini.dmp", "simple-crashpad.dmp", "invalid-parameter.dmp", "pipeline-inlines-macos-segv.dmp"]
 MODEL_FIELDS = ["R", "SI", "TL", "ML", "UM", "MEM", "M64", "MI", "TI", "TN", "HD", "EX", "EXP", "EXC",
-                "TLP", "MS", "LC", "LS", "LR", "LE", "LL", "MA", "CP", "SIS", "AS", "BP", "MB", "SE", "MC", "RM", "RI", "CA", "TE", "AM", "AL", "AI", "A6", "TG", "TS", "TIG"]
+                "TLP", "MS", "LC", "LS", "LR", "LE", "LL", "MA", "CP", "SIS", "AS", "BP", "MB", "SE", "MC", "RM", "RI", "CA", "TE", "AM", "AL", "AI", "A6", "TG", "TS", "TIG", "TSW"]
 # tighter than the brief's max(1 MiB, 64*len^2): the largest single request is LINEAR in the input
 PK_FLOOR = 64 * 1024
 PK_PER_BYTE = 16
@@ -862,6 +862,46 @@ class Gen:
                         self.dump("location_content_product", d.finish())
 
     # ------------------------------------------------------------- round 5: address tables (C01/LModel.v) — interval patterns x list kind
+    def stack_words_product(self):
+        """The stack words MinidumpThread::print writes (field TSW, C01/PModel.v): processor_architecture (every value the reader knows, an
+        unknown one, no system info at all) x stack length around the 4- and 8-byte word sizes x where the stack comes from (read at parse
+        time, found in the memory list, found in the Memory64 list, nowhere) x thread context (absent, or a valid record of that CPU: MIPS and
+        SPARC contexts carry 64-bit registers on CPUs with 32-bit pointers) x byte order."""
+        archs = [(name, v[0]) for name, v in CPUS.items() if name != "unknown"] + [("mips64", 0x8004), ("unknown", 0x1234), ("alpha", 2), ("none", None)]
+        lens = [1, 3, 4, 5, 7, 8, 9, 12, 15, 16, 17, 23, 24, 33]
+        q = self.tier == "quick"
+        k = 0
+        for name, arch in archs:
+            for ln in lens:
+                for source in ("own", "memlist", "mem64", "none"):
+                    for withctx in (False, True):
+                        k += 1
+                        if withctx and name not in CPUS:
+                            continue
+                        for be in (False, True):
+                            if q and (k + be) % 2:
+                                continue
+                            d = Dump(be, ndir=5)
+                            blob = d.add(bytes((7 * i + 1) & 0xff for i in range(ln)))
+                            cx = (0, 0)
+                            if withctx:
+                                cbytes = d.context(name)
+                                cx = (len(cbytes), d.add(cbytes))
+                            if arch is not None:
+                                d.stream(ST["system_info"], d.sysinfo(arch))
+                            base = 0x7000 if k % 3 else (1 << 64) - 64
+                            if source == "own":
+                                th = d.thread(7, (base, ln, blob), cx)
+                            else:   # no readable stack of its own: start_of_memory_range points into (the middle of) the region, if there is one
+                                th = d.thread(7, (base + ln // 2, 0, 0), cx)
+                            d.stream(ST["thread_list"], d.list([th, d.thread(8, (base + ln, 0, 0), cx)]))   # thread 8: one past the region
+                            if source == "memlist":
+                                d.stream(ST["memory_list"], d.list([d.u64(base) + d.u32(ln, blob)]))
+                            elif source == "mem64":
+                                at = len(d.buf) + 16 + 16
+                                d.stream(ST["memory64"], d.u64(1, at) + d.u64(base, ln) + bytes((3 * i) & 0xff for i in range(ln)))
+                            self.dump("stack_words_product", d.finish())
+
     def lookup_product(self):
         """The same list of (base, size) intervals is written as a memory list, a module list, a memory-info list and a Memory64 list of one dump
         (plus a thread list whose ids repeat): disjoint in both orders, identical, nested, partially overlapping, adjacent, empty in between,
@@ -1006,10 +1046,14 @@ class Gen:
 class C01(PropBase):
     pid = "C01"
     coq_dirs = ["Base", "C08", "C01"]       # C08: the range-map model the lookups are built on; C02/Layout + Gen/Layouts are imported (their own gates scan them)
-    translators = ["c01_sites.py", "format_layouts.py"]
+    translators = ["c01_sites.py", "format_layouts.py", "c01_cpu.py"]
     bins = ["c01"]
-    impl_timeout = 240
-    model_timeout = 3400     # a wall-clock safety net only: at load 200 (twenty builders on 16 cores) a thorough model shard of 8 300 cases needed more than 1 800 s (round 5), 900 s at load 60 (round 4)
+    # Time limits are CPU-time limits: the harness's own watchdog ends a case after 20 s of CPU time, the `ms` field of an answer is CPU time,
+    # and a model shard runs under `ulimit -t` (model_cmd). The two wall-clock numbers below are safety nets for a process that sleeps forever,
+    # far above anything a loaded machine produces (round 5: a thorough model shard needed > 1 800 s wall at load 200, 110 s of CPU).
+    impl_timeout = 7200
+    model_timeout = 7200
+    MODEL_CPU_S = 1500      # CPU seconds per model shard (quick: 25 s, thorough: 110-250 s measured)
     impl_mem_gb = 4
     rule = ("case = a byte string offered as a minidump (hex, or a /repo/testdata file with u32 patches). Exhaustive blocks: truncation of a "
             "10-stream dump at every offset; every 4-byte-aligned u32 of that dump replaced by each of {0,1,len-1,len,len+1,2^31,2^32-1}; both endians. "
@@ -1066,6 +1110,9 @@ class C01(PropBase):
                 "encoding_rs/time. C08's range-map model is reused, not re-verified here. The site scan is syntactic (regex over blanked source), its classification a reviewed table. No axioms.",
     }
 
+    def model_cmd(self, exe):
+        return ["/bin/sh", "-c", "ulimit -t %d; exec \"$0\"" % self.MODEL_CPU_S, exe]
+
     def gen_cases(self, tier, seed):
         rng = Rng(seed)
         g = Gen(rng, tier)
@@ -1085,8 +1132,9 @@ class C01(PropBase):
         g.round4(1500 if q else 9000)
         g.location_content_product()
         g.lookup_product()
+        g.stack_words_product()
         g.utf16_edge_product()
-        g.synth_and_samples(700 if q else 8000, 160 if q else 2000)      # a mutated sample dump costs the model 0.3-0.5 s (27 KB as a list): the thorough tier's largest block
+        g.synth_and_samples(700 if q else 8000, 160 if q else 700)       # a mutated sample dump costs the model 0.15-0.5 s of CPU (11-27 KB as a list): with 2 000 per sample this block alone was 2/3 of the thorough tier's model time (16 shards x 150-250 s of CPU; at load 175 a shard gets 5 % of a core)
         g.random_bytes(200 if q else 3000)
         # the runner shards the case list into NCPU contiguous ranges: deal the cases round-robin so that every shard gets the
         # same mix of cheap and expensive cases (the exhaustive blocks over 2 KB dumps are otherwise all in the first shards)
@@ -1149,7 +1197,7 @@ class C01(PropBase):
         if live > max(LIVE_FLOOR, 64 * ln * ln):
             return "live heap grew by %d bytes for a %d-byte input (bound max(4 MiB, 64*len^2))" % (live, ln)
         if ms > SLOW_MS:
-            return "case took %d ms" % ms
+            return "case took %d ms of CPU time" % ms
         return None
 
     def nontrivial(self, case, ans):
